@@ -440,7 +440,7 @@ func (w *World) opGCWait(op Op) {
 	if g := w.k.grace(); g > 0 {
 		wait += g
 	}
-	simrt.Sleep(wait)
+	w.opSleep(wait.Milliseconds())
 	w.settle()
 	now := w.now()
 	asOf := now.Add(-w.k.freq() - 500*time.Millisecond)
